@@ -46,6 +46,19 @@ namespace bloch::update {
         constexpr std::string_view kChangelogUrl =
             "https://github.com/bloch-labs/bloch/blob/master/CHANGELOG.md";
 
+#ifdef BLOCH_VERIF
+        // Verification hooks (guarded): a settable clock and a stubbed release lookup so the
+        // update decisions can be driven offline.  BLOCH_VERIF_NOW=<seconds since epoch>,
+        // BLOCH_VERIF_LATEST_TAG=<tag> ("!fail" simulates a failed lookup).
+        std::chrono::system_clock::time_point verifNow() {
+            if (const char* s = std::getenv("BLOCH_VERIF_NOW"); s && *s)
+                return std::chrono::system_clock::time_point(
+                    std::chrono::seconds(std::strtoll(s, nullptr, 10)));
+            return std::chrono::system_clock::now();
+        }
+        bool verifOffline() { return std::getenv("BLOCH_VERIF_LATEST_TAG") != nullptr; }
+#endif
+
         struct UpdateCache {
             std::string latestVersion;
             Clock::time_point lastChecked{};
@@ -256,6 +269,15 @@ namespace bloch::update {
 
         std::optional<std::string> fetchLatestReleaseTag(const std::string& agent,
                                                          std::string& error) {
+#ifdef BLOCH_VERIF
+            if (const char* t = std::getenv("BLOCH_VERIF_LATEST_TAG")) {
+                if (std::string(t) == "!fail") {
+                    error = "verif: simulated failure";
+                    return std::nullopt;
+                }
+                return std::string(t);
+            }
+#endif
             httplib::SSLClient client("api.github.com");
             configureClient(client);
             httplib::Headers headers{
@@ -446,6 +468,12 @@ namespace bloch::update {
         bool downloadFile(const std::string& host, const std::string& path,
                           const std::string& agent, const std::filesystem::path& dest,
                           std::string& error) {
+#ifdef BLOCH_VERIF
+            if (verifOffline()) {
+                error = "verif: offline";
+                return false;
+            }
+#endif
             httplib::SSLClient client(host);
             configureClient(client);
             httplib::Headers headers{{"User-Agent", agent}};
@@ -611,7 +639,11 @@ namespace bloch::update {
         if (shouldSkipChecks())
             return;
 
+#ifdef BLOCH_VERIF
+        const auto now = verifNow();
+#else
         const auto now = Clock::now();
+#endif
         auto cached = loadCache();
         UpdateCache cache = cached.value_or(emptyCache());
 
